@@ -125,6 +125,12 @@ def judge(ctx, case, res, build, param_size):
         return "%s [%s build]: peak heap use %d bytes for %d input bytes (bound %d)" % (case.op, build, peak, case.inlen, alloc_bound(case, param_size)), False
     if res.num("us") > 9_000_000:
         return "%s [%s build]: %d us for %d input bytes" % (case.op, build, res.num("us"), case.inlen), False
+    if case.op == "HB":
+        # the length the header announces is reported by the harness; the limits decide the verdict
+        each = int(case.line.split(" ")[3])
+        want = "ok" if res.num("hfl") <= MAXA and each <= MAXA else "err"
+        if res.status != want:
+            return "HB [%s build]: %s for a header field array of %d bytes holding arrays of %d bytes (all present)" % (build, res.status, res.num("hfl"), each), False
     if case.expect and res.status != case.expect:
         return "%s [%s build]: %s, the case demands %s (%s)" % (case.op, build, res.status, case.expect, case.note or case.kind), False
     return None, False
@@ -489,6 +495,10 @@ def gen_header(g):
             m = header_bytes(bo, "", b"", fields=[(1, "o", b"/p"), (3, "s", b"M"), (77, "v", val)])
             cases.append(Case("header:bomb", "HD %d %s" % (phase(), hx(m)), len(m), expect="err" if n > 61 else None,
                               note="unknown header field holding %d nested variants (already 3 levels deep)" % n))
+    # header field arrays whose bytes are all there: just below / above 2^26 in total while every field is within the array limit
+    for bo in ("le", "be"):
+        for nf, each in ((2, 100), (2, (1 << 25) - 96), (2, (1 << 25) + 64), (1, MAXA - 64), (1, MAXA + 8)):
+            cases.append(Case("header:bomb:present", "HB %s %d %d" % (bo, nf, each), nf * each + 64, note="%d unknown header fields of %d bytes" % (nf, each)))
     for _ in range(30000 if thorough else 3000):
         n = r.choice([0, 1, 8, 12, 15, 16, 17, 24, 40, 64, 120])
         data = bytearray(r.choice([0, 0, 1, 4, 8, r.randrange(256)]) for _ in range(n))
